@@ -238,247 +238,7 @@ func runC10(c *Ctx) {
 		c.Check(okSet, "R10.3", "SetMetadataOperation.Apply:immutable-setter", w.FnPos(sm), "uses the immutable setter", "set-metadata does not go through setExtraMetadataImmutable")
 	}
 
-	// R10.4
-	type want struct {
-		typ                string
-		actor, participant bool
-		timelineAppend     bool
-		commentsAppend     bool
-		stores             map[string]string // snapshot field -> required origin substring
-	}
-	table := []want{
-		{"CreateOperation", true, true, false, false, map[string]string{"Title": "field .Title", "Author": "Author", "CreateTime": "Time"}},
-		{"AddCommentOperation", true, true, true, true, nil},
-		{"EditCommentOperation", true, false, false, false, nil},
-		{"SetTitleOperation", true, false, true, false, map[string]string{"Title": "field .Title"}},
-		{"SetStatusOperation", true, false, true, false, map[string]string{"Status": "field .Status"}},
-		{"LabelChangeOperation", true, false, true, false, nil},
-	}
-	for _, t := range table {
-		fn := w.Method("entities/bug", t.typ, "Apply")
-		if fn == nil {
-			c.Undecided("R10.4", "anchor:"+t.typ+".Apply", "entities/bug", "not found")
-			continue
-		}
-		c.seeFn(funcName(fn))
-		f := snapshotFacts(fn)
-		c.Sites += len(f.calls)
-		pos := w.FnPos(fn)
-		key := t.typ + ".Apply"
-		c.Check((f.calls["entities/bug.Snapshot.addActor"] > 0) == t.actor, "R10.4", key+":actor", pos, "author recorded as actor", "the author is not recorded as an actor of the bug (or is where the table says not)")
-		c.Check((f.calls["entities/bug.Snapshot.addParticipant"] > 0) == t.participant, "R10.4", key+":participant", pos, fmt.Sprintf("participant: %v", t.participant), fmt.Sprintf("participant handling differs from the documented semantics (expected adds participant: %v)", t.participant))
-		nTl := f.appendsTo["Timeline"]
-		if t.typ == "CreateOperation" {
-			c.Check(f.resets["Timeline"] && f.resets["Comments"], "R10.4", key+":first-items", pos, "creates the first comment and timeline item", "the create operation does not initialise the comment and timeline lists")
-		} else {
-			c.Check((nTl == 1) == t.timelineAppend && (nTl <= 1), "R10.4", key+":timeline", pos, fmt.Sprintf("%d timeline item appended", nTl), fmt.Sprintf("appends %d timeline items (expected %v)", nTl, map[bool]int{true: 1, false: 0}[t.timelineAppend]))
-			c.Check((f.appendsTo["Comments"] == 1) == t.commentsAppend, "R10.4", key+":comments", pos, fmt.Sprintf("%d comment appended", f.appendsTo["Comments"]), "the number of comments this operation adds differs from the documented semantics")
-		}
-		var fields []string
-		for k := range t.stores {
-			fields = append(fields, k)
-		}
-		sort.Strings(fields)
-		for _, fld := range fields {
-			got := f.fieldStores[fld]
-			c.Check(strings.Contains(got, t.stores[fld]), "R10.4", key+":"+fld, pos, fld+" ← "+got, fmt.Sprintf("snapshot.%s is set from %q (expected the operation's %s)", fld, got, t.stores[fld]))
-		}
-	}
-	// the comment built by create / add-comment / edit-comment carries message and files of the operation
-	for _, typ := range []string{"CreateOperation", "AddCommentOperation", "EditCommentOperation"} {
-		fn := w.Method("entities/bug", typ, "Apply")
-		if fn == nil {
-			continue
-		}
-		for _, b := range fn.Blocks {
-			for _, ins := range b.Instrs {
-				al, isAl := ins.(*ssa.Alloc)
-				if !isAl || typeShortName(al.Type()) != "entities/bug.Comment" {
-					continue
-				}
-				for _, fld := range []string{"Message", "Files"} {
-					ok := false
-					for _, st := range storedFieldValues(fn, al, fld) {
-						if hasField(st.Val, fld) {
-							ok = true
-						}
-					}
-					c.Sites++
-					c.Check(ok, "R10.4", typ+".Apply:comment-"+strings.ToLower(fld), w.InstrPos(al), "comment."+fld+" ← op."+fld, "the comment compiled for this operation does not carry the operation's "+fld)
-				}
-			}
-		}
-	}
-	// edit-comment: unknown or non-comment targets change nothing
-	if ec := w.Method("entities/bug", "EditCommentOperation", "Apply"); ec != nil {
-		f := snapshotFacts(ec)
-		_ = f
-		okNil, okType := true, true
-		nAct := 0
-		for _, actor := range CallsNamed(ec, "entities/bug.Snapshot.addActor") {
-			nAct++
-			thisNil, thisType := false, false
-			for _, cc := range controlConds(actor.Block(), nil) {
-				if bo, isBo := cc.If.Cond.(*ssa.BinOp); isBo && (isNilConst(bo.X) || isNilConst(bo.Y)) {
-					thisNil = true
-				}
-				if ex, isEx := cc.If.Cond.(*ssa.Extract); isEx {
-					if _, isTA := ex.Tuple.(*ssa.TypeAssert); isTA {
-						thisType = true
-					}
-				}
-			}
-			// type switch: the actor call is reachable only through a successful assertion
-			if !thisType {
-				for _, b := range ec.Blocks {
-					for _, ins := range b.Instrs {
-						if ta, isTA := ins.(*ssa.TypeAssert); isTA && ta.CommaOk && instrDominates(ta, actor.Instr) {
-							thisType = true
-						}
-					}
-				}
-			}
-			okNil = okNil && thisNil
-			okType = okType && thisType
-		}
-		if nAct == 0 {
-			okNil, okType = false, false
-		}
-		c.Check(okNil && okType, "R10.4", "EditCommentOperation.Apply:unknown-target-noop", w.FnPos(ec), "nothing changes unless the target exists and is a comment item", "an edit whose target is unknown or not a comment still changes the snapshot")
-		// the comment updated is the one with the target's combined id
-		okUpd := false
-		for _, b := range ec.Blocks {
-			for _, ins := range b.Instrs {
-				if st, isSt := ins.(*ssa.Store); isSt {
-					if fa, isFA := st.Addr.(*ssa.FieldAddr); isFA && fieldName(fa) == "Message" {
-						if _, isIA := fa.X.(*ssa.IndexAddr); isIA && hasField(st.Val, "Message") {
-							for _, cc := range controlConds(b, nil) {
-								if bo, isBo := cc.If.Cond.(*ssa.BinOp); isBo && bo.Op == token.EQL && cc.Edge == 0 {
-									okUpd = true
-								}
-							}
-						}
-					}
-				}
-			}
-		}
-		c.Check(okUpd, "R10.4", "EditCommentOperation.Apply:updates-target-comment", w.FnPos(ec), "the comment with the target's id gets the new text", "the edited text is not written into the comment identified by the target id")
-	}
-	// no-op and set-metadata
-	dp := w.Pkg("entity/dag")
-	marker, _ := dp.Types.Scope().Lookup("OperationDoesntChangeSnapshot").Type().Underlying().(*types.Interface)
-	for _, name := range []string{"NoOpOperation", "SetMetadataOperation"} {
-		tn, ok := dp.Types.Scope().Lookup(name).(*types.TypeName)
-		if !ok {
-			continue
-		}
-		hasMarker := false
-		if named, isN := tn.Type().(*types.Named); isN {
-			for i := 0; i < named.NumMethods(); i++ {
-				if named.Method(i).Name() == "DoesntChangeSnapshot" {
-					hasMarker = true
-				}
-			}
-		}
-		_ = marker
-		c.Check(hasMarker, "R10.4", name+":marked-neutral", w.Pos(tn.Pos()), "implements OperationDoesntChangeSnapshot", name+" is not marked as not changing the snapshot")
-	}
-	// addActor / addParticipant append only when absent
-	for _, m := range []string{"addActor", "addParticipant"} {
-		fn := w.Method("entities/bug", "Snapshot", m)
-		if fn == nil {
-			c.Undecided("R10.4", "anchor:Snapshot."+m, "entities/bug", "not found")
-			continue
-		}
-		// the list appended to
-		field := ""
-		okApp := false
-		for _, b := range fn.Blocks {
-			for _, ins := range b.Instrs {
-				if st, isSt := ins.(*ssa.Store); isSt {
-					if fa, isFA := st.Addr.(*ssa.FieldAddr); isFA {
-						if ap, isCall := st.Val.(*ssa.Call); isCall {
-							if bi, isB := ap.Common().Value.(*ssa.Builtin); isB && bi.Name() == "append" && enclosingLoopHeader(b) == nil {
-								field = fieldName(fa)
-								okApp = true
-							}
-						}
-					}
-				}
-			}
-		}
-		// (A) a scan of that very list comparing ids, returning early on a match
-		ok := false
-		scansField := func(f *ssa.Function, g CmpGuard) string {
-			// the list element compared comes from an index into a load of a Snapshot field
-			for _, side := range []ssa.Value{g.X, g.Y} {
-				cv, isCall := side.(*ssa.Call)
-				if !isCall {
-					continue
-				}
-				var recv ssa.Value
-				if cv.Common().IsInvoke() {
-					recv = cv.Common().Value
-				} else if len(cv.Common().Args) > 0 {
-					recv = cv.Common().Args[0]
-				}
-				if ld, isLd := recv.(*ssa.UnOp); isLd {
-					if ia, isIA := ld.X.(*ssa.IndexAddr); isIA {
-						if _, fld, isF := loadOfField(ia.X); isF {
-							return fld
-						}
-					}
-				}
-			}
-			return ""
-		}
-		inLoopReturn := func(r *ssa.Return) bool {
-			return enclosingLoopHeader(r.Block()) != nil || len(r.Block().Preds) == 1 && enclosingLoopHeader(r.Block().Preds[0]) != nil
-		}
-		for _, g := range cmpGuards(fn, inLoopReturn) {
-			if g.Op == token.EQL && scansField(fn, g) == field && field != "" {
-				ok = true
-			}
-		}
-		// (B) a membership predicate over that very list, called with the id of the identity to add
-		bareReturn := func(r *ssa.Return) bool { // the early return: a block that stores nothing
-			for _, ins := range r.Block().Instrs {
-				if _, isSt := ins.(*ssa.Store); isSt {
-					return false
-				}
-			}
-			return true
-		}
-		for _, pg := range predGuards(fn, bareReturn) {
-			if !pg.FailsWhen || pg.Call.Common().StaticCallee() == nil {
-				continue
-			}
-			pred := pg.Call.Common().StaticCallee()
-			memberOf := ""
-			for _, g := range cmpGuards(pred, func(r *ssa.Return) bool {
-				k, isK := r.Results[0].(*ssa.Const)
-				return len(r.Results) == 1 && isK && k.Value != nil && k.Value.String() == "true"
-			}) {
-				if g.Op == token.EQL {
-					memberOf = scansField(pred, g)
-				}
-			}
-			args := pg.Call.Common().Args
-			idOfParam := false
-			if len(args) > 0 {
-				if idc, isCall := args[len(args)-1].(*ssa.Call); isCall {
-					if n, _ := callName(idc.Common()); strings.HasSuffix(n, ".Id") {
-						idOfParam = true
-					}
-				}
-			}
-			if memberOf == field && field != "" && idOfParam {
-				ok = true
-			}
-		}
-		c.Sites++
-		c.Check(ok && okApp, "R10.4", "Snapshot."+m+":once", w.FnPos(fn), "returns early when the id is already listed, appends otherwise", m+" can list the same identity twice (or never appends)")
-	}
+	checkApplyTable(c)
 
 	// R10.5
 	lc := w.Method("entities/bug", "LabelChangeOperation", "Apply")
@@ -783,4 +543,253 @@ func checkApplyUnconditional(c *Ctx) {
 			c.Check(!bad, "R10.6", t.typ+"."+t.method+":"+strings.ReplaceAll(r.what, " ", "-"), w.FnPos(fn), r.what+" on every path", "a return is reachable on which it is not the case that "+r.what+" ("+blocksString(w, p)+"): the operation is skipped or half applied for some inputs, the compiled state no longer follows the operation order")
 		}
 	}
+}
+
+// checkApplyTable (R10.4): the per-operation effect table. Shared with C17 (the bug returned by a
+// mutation reflects the requested change only if the operation's Apply has the documented effect).
+func checkApplyTable(c *Ctx) {
+	w := c.W
+	_ = w
+	// R10.4
+	type want struct {
+		typ                string
+		actor, participant bool
+		timelineAppend     bool
+		commentsAppend     bool
+		stores             map[string]string // snapshot field -> required origin substring
+	}
+	table := []want{
+		{"CreateOperation", true, true, false, false, map[string]string{"Title": "field .Title", "Author": "Author", "CreateTime": "Time"}},
+		{"AddCommentOperation", true, true, true, true, nil},
+		{"EditCommentOperation", true, false, false, false, nil},
+		{"SetTitleOperation", true, false, true, false, map[string]string{"Title": "field .Title"}},
+		{"SetStatusOperation", true, false, true, false, map[string]string{"Status": "field .Status"}},
+		{"LabelChangeOperation", true, false, true, false, nil},
+	}
+	for _, t := range table {
+		fn := w.Method("entities/bug", t.typ, "Apply")
+		if fn == nil {
+			c.Undecided("R10.4", "anchor:"+t.typ+".Apply", "entities/bug", "not found")
+			continue
+		}
+		c.seeFn(funcName(fn))
+		f := snapshotFacts(fn)
+		c.Sites += len(f.calls)
+		pos := w.FnPos(fn)
+		key := t.typ + ".Apply"
+		c.Check((f.calls["entities/bug.Snapshot.addActor"] > 0) == t.actor, "R10.4", key+":actor", pos, "author recorded as actor", "the author is not recorded as an actor of the bug (or is where the table says not)")
+		c.Check((f.calls["entities/bug.Snapshot.addParticipant"] > 0) == t.participant, "R10.4", key+":participant", pos, fmt.Sprintf("participant: %v", t.participant), fmt.Sprintf("participant handling differs from the documented semantics (expected adds participant: %v)", t.participant))
+		nTl := f.appendsTo["Timeline"]
+		if t.typ == "CreateOperation" {
+			c.Check(f.resets["Timeline"] && f.resets["Comments"], "R10.4", key+":first-items", pos, "creates the first comment and timeline item", "the create operation does not initialise the comment and timeline lists")
+		} else {
+			c.Check((nTl == 1) == t.timelineAppend && (nTl <= 1), "R10.4", key+":timeline", pos, fmt.Sprintf("%d timeline item appended", nTl), fmt.Sprintf("appends %d timeline items (expected %v)", nTl, map[bool]int{true: 1, false: 0}[t.timelineAppend]))
+			c.Check((f.appendsTo["Comments"] == 1) == t.commentsAppend, "R10.4", key+":comments", pos, fmt.Sprintf("%d comment appended", f.appendsTo["Comments"]), "the number of comments this operation adds differs from the documented semantics")
+		}
+		var fields []string
+		for k := range t.stores {
+			fields = append(fields, k)
+		}
+		sort.Strings(fields)
+		for _, fld := range fields {
+			got := f.fieldStores[fld]
+			c.Check(strings.Contains(got, t.stores[fld]), "R10.4", key+":"+fld, pos, fld+" ← "+got, fmt.Sprintf("snapshot.%s is set from %q (expected the operation's %s)", fld, got, t.stores[fld]))
+		}
+	}
+	// the comment built by create / add-comment / edit-comment carries message and files of the operation
+	for _, typ := range []string{"CreateOperation", "AddCommentOperation", "EditCommentOperation"} {
+		fn := w.Method("entities/bug", typ, "Apply")
+		if fn == nil {
+			continue
+		}
+		for _, b := range fn.Blocks {
+			for _, ins := range b.Instrs {
+				al, isAl := ins.(*ssa.Alloc)
+				if !isAl || typeShortName(al.Type()) != "entities/bug.Comment" {
+					continue
+				}
+				for _, fld := range []string{"Message", "Files"} {
+					ok := false
+					for _, st := range storedFieldValues(fn, al, fld) {
+						if hasField(st.Val, fld) {
+							ok = true
+						}
+					}
+					c.Sites++
+					c.Check(ok, "R10.4", typ+".Apply:comment-"+strings.ToLower(fld), w.InstrPos(al), "comment."+fld+" ← op."+fld, "the comment compiled for this operation does not carry the operation's "+fld)
+				}
+			}
+		}
+	}
+	// edit-comment: unknown or non-comment targets change nothing
+	if ec := w.Method("entities/bug", "EditCommentOperation", "Apply"); ec != nil {
+		f := snapshotFacts(ec)
+		_ = f
+		okNil, okType := true, true
+		nAct := 0
+		for _, actor := range CallsNamed(ec, "entities/bug.Snapshot.addActor") {
+			nAct++
+			thisNil, thisType := false, false
+			for _, cc := range controlConds(actor.Block(), nil) {
+				if bo, isBo := cc.If.Cond.(*ssa.BinOp); isBo && (isNilConst(bo.X) || isNilConst(bo.Y)) {
+					thisNil = true
+				}
+				if ex, isEx := cc.If.Cond.(*ssa.Extract); isEx {
+					if _, isTA := ex.Tuple.(*ssa.TypeAssert); isTA {
+						thisType = true
+					}
+				}
+			}
+			// type switch: the actor call is reachable only through a successful assertion
+			if !thisType {
+				for _, b := range ec.Blocks {
+					for _, ins := range b.Instrs {
+						if ta, isTA := ins.(*ssa.TypeAssert); isTA && ta.CommaOk && instrDominates(ta, actor.Instr) {
+							thisType = true
+						}
+					}
+				}
+			}
+			okNil = okNil && thisNil
+			okType = okType && thisType
+		}
+		if nAct == 0 {
+			okNil, okType = false, false
+		}
+		c.Check(okNil && okType, "R10.4", "EditCommentOperation.Apply:unknown-target-noop", w.FnPos(ec), "nothing changes unless the target exists and is a comment item", "an edit whose target is unknown or not a comment still changes the snapshot")
+		// the comment updated is the one with the target's combined id
+		okUpd := false
+		for _, b := range ec.Blocks {
+			for _, ins := range b.Instrs {
+				if st, isSt := ins.(*ssa.Store); isSt {
+					if fa, isFA := st.Addr.(*ssa.FieldAddr); isFA && fieldName(fa) == "Message" {
+						if _, isIA := fa.X.(*ssa.IndexAddr); isIA && hasField(st.Val, "Message") {
+							for _, cc := range controlConds(b, nil) {
+								if bo, isBo := cc.If.Cond.(*ssa.BinOp); isBo && bo.Op == token.EQL && cc.Edge == 0 {
+									okUpd = true
+								}
+							}
+						}
+					}
+				}
+			}
+		}
+		c.Check(okUpd, "R10.4", "EditCommentOperation.Apply:updates-target-comment", w.FnPos(ec), "the comment with the target's id gets the new text", "the edited text is not written into the comment identified by the target id")
+	}
+	// no-op and set-metadata
+	dp := w.Pkg("entity/dag")
+	marker, _ := dp.Types.Scope().Lookup("OperationDoesntChangeSnapshot").Type().Underlying().(*types.Interface)
+	for _, name := range []string{"NoOpOperation", "SetMetadataOperation"} {
+		tn, ok := dp.Types.Scope().Lookup(name).(*types.TypeName)
+		if !ok {
+			continue
+		}
+		hasMarker := false
+		if named, isN := tn.Type().(*types.Named); isN {
+			for i := 0; i < named.NumMethods(); i++ {
+				if named.Method(i).Name() == "DoesntChangeSnapshot" {
+					hasMarker = true
+				}
+			}
+		}
+		_ = marker
+		c.Check(hasMarker, "R10.4", name+":marked-neutral", w.Pos(tn.Pos()), "implements OperationDoesntChangeSnapshot", name+" is not marked as not changing the snapshot")
+	}
+	// addActor / addParticipant append only when absent
+	for _, m := range []string{"addActor", "addParticipant"} {
+		fn := w.Method("entities/bug", "Snapshot", m)
+		if fn == nil {
+			c.Undecided("R10.4", "anchor:Snapshot."+m, "entities/bug", "not found")
+			continue
+		}
+		// the list appended to
+		field := ""
+		okApp := false
+		for _, b := range fn.Blocks {
+			for _, ins := range b.Instrs {
+				if st, isSt := ins.(*ssa.Store); isSt {
+					if fa, isFA := st.Addr.(*ssa.FieldAddr); isFA {
+						if ap, isCall := st.Val.(*ssa.Call); isCall {
+							if bi, isB := ap.Common().Value.(*ssa.Builtin); isB && bi.Name() == "append" && enclosingLoopHeader(b) == nil {
+								field = fieldName(fa)
+								okApp = true
+							}
+						}
+					}
+				}
+			}
+		}
+		// (A) a scan of that very list comparing ids, returning early on a match
+		ok := false
+		scansField := func(f *ssa.Function, g CmpGuard) string {
+			// the list element compared comes from an index into a load of a Snapshot field
+			for _, side := range []ssa.Value{g.X, g.Y} {
+				cv, isCall := side.(*ssa.Call)
+				if !isCall {
+					continue
+				}
+				var recv ssa.Value
+				if cv.Common().IsInvoke() {
+					recv = cv.Common().Value
+				} else if len(cv.Common().Args) > 0 {
+					recv = cv.Common().Args[0]
+				}
+				if ld, isLd := recv.(*ssa.UnOp); isLd {
+					if ia, isIA := ld.X.(*ssa.IndexAddr); isIA {
+						if _, fld, isF := loadOfField(ia.X); isF {
+							return fld
+						}
+					}
+				}
+			}
+			return ""
+		}
+		inLoopReturn := func(r *ssa.Return) bool {
+			return enclosingLoopHeader(r.Block()) != nil || len(r.Block().Preds) == 1 && enclosingLoopHeader(r.Block().Preds[0]) != nil
+		}
+		for _, g := range cmpGuards(fn, inLoopReturn) {
+			if g.Op == token.EQL && scansField(fn, g) == field && field != "" {
+				ok = true
+			}
+		}
+		// (B) a membership predicate over that very list, called with the id of the identity to add
+		bareReturn := func(r *ssa.Return) bool { // the early return: a block that stores nothing
+			for _, ins := range r.Block().Instrs {
+				if _, isSt := ins.(*ssa.Store); isSt {
+					return false
+				}
+			}
+			return true
+		}
+		for _, pg := range predGuards(fn, bareReturn) {
+			if !pg.FailsWhen || pg.Call.Common().StaticCallee() == nil {
+				continue
+			}
+			pred := pg.Call.Common().StaticCallee()
+			memberOf := ""
+			for _, g := range cmpGuards(pred, func(r *ssa.Return) bool {
+				k, isK := r.Results[0].(*ssa.Const)
+				return len(r.Results) == 1 && isK && k.Value != nil && k.Value.String() == "true"
+			}) {
+				if g.Op == token.EQL {
+					memberOf = scansField(pred, g)
+				}
+			}
+			args := pg.Call.Common().Args
+			idOfParam := false
+			if len(args) > 0 {
+				if idc, isCall := args[len(args)-1].(*ssa.Call); isCall {
+					if n, _ := callName(idc.Common()); strings.HasSuffix(n, ".Id") {
+						idOfParam = true
+					}
+				}
+			}
+			if memberOf == field && field != "" && idOfParam {
+				ok = true
+			}
+		}
+		c.Sites++
+		c.Check(ok && okApp, "R10.4", "Snapshot."+m+":once", w.FnPos(fn), "returns early when the id is already listed, appends otherwise", m+" can list the same identity twice (or never appends)")
+	}
+
 }
